@@ -164,6 +164,146 @@ def explore_known(task):
     return {"paths": npaths, "queries": queries, "part": "walker/known-witness"}
 
 
+# ------------------------------------------------------------------------------------------------ handler part
+def make_handler_run(task):
+    """The real LeafUnitCellVetoEventHandler (initialize + send_event_time) with real cells, real Walker and a stub
+    estimator whose bounds are distinct per offset / direction / sign."""
+    cell_level, per_root = task
+    from vlib import jf
+    import jellyfysh.base.time as time_mod
+    from jellyfysh.base.time import Time
+    from jellyfysh.base.node import Node
+    from jellyfysh.base.unit import Unit
+    import jellyfysh.event_handler.abstracts.cell_veto_event_handler as cv_mod
+    import jellyfysh.event_handler.leaf_unit_cell_veto_event_handler as lcv_mod
+    from jellyfysh.activator.internal_state.cell_occupancy.cells.cuboid_periodic_cells import CuboidPeriodicCells
+    from jellyfysh.potential import Potential
+    BOX, DIM, GRID = 4.0, 2, [4, 4]
+
+    class Pot(Potential):
+        def __init__(self):
+            self._prefactor = 1.0
+            self._number_separation_arguments = 1
+            self._number_charge_arguments = 2
+
+        def derivative(self, velocity, separation, c1, c2):
+            return 0.0
+
+    class Est(object):
+        potential = Pot()
+
+        def derivative_bound(self, lower_corner, upper_corner, direction, calculate_lower_bound=False):
+            key = int(round(sum((i + 1) * 8 * (c + BOX) for i, c in enumerate(lower_corner)))) % 97
+            return 1.0 + key / 16.0 + direction, -(0.5 + key / 32.0 + 2 * direction)
+
+        def charge_correction_factor(self, charge):
+            return charge
+
+    def run(ex):
+        jf.init_hypercubic(DIM, BOX, roots=2, per_root=per_root)
+        rnd = stubs.SymRandom(ex)
+        undos = [symx.patch_module(walker_mod, random=rnd), symx.patch_module(cv_mod, random=rnd, print=lambda *a: None),
+                 symx.patch_module(time_mod, isinf=symx.MathShim.isinf)]
+        try:
+            cells = CuboidPeriodicCells(cells_per_side=GRID, neighbor_layers=1)
+            est = Est()
+            h = lcv_mod.LeafUnitCellVetoEventHandler(estimator=est, charge="e")
+            h.initialize(cells, cell_level)
+            direction = ex.choose(DIM)
+            speed = ex.real("speed")
+            ex.axiom(speed.t > 0)
+            charge = ex.real("charge")
+            ex.axiom(charge.t != 0)
+
+            def pos(name):
+                p = [ex.real("%s_%d" % (name, d)) for d in range(DIM)]
+                for c in p:
+                    ex.axiom(z3.And(c.t >= 0, c.t < BOX))
+                return p
+            stamp_q = z3.Int("t0_q")
+            stamp_r = z3.Real("t0_r")
+            ex.axiom(z3.And(stamp_q >= 0, stamp_q <= 4, stamp_r >= 0, stamp_r < 1))
+            vel = [speed if d == direction else 0.0 for d in range(DIM)]
+            leaf_pos = pos("leaf")
+            stamp_val = z3.ToReal(stamp_q) + stamp_r
+
+            def stamp():
+                return Time(symx.SymReal(z3.ToReal(stamp_q)), symx.SymReal(stamp_r))
+            if per_root == 1:
+                leaf = Unit((0,), list(leaf_pos), {"e": charge}, list(vel), stamp())
+                branch = Node(leaf, weight=1)
+                level_unit = leaf
+            else:
+                root_pos = pos("root")
+                w = symx.SymReal(symx.realval(1) / per_root)
+                root = Unit((0,), list(root_pos), None, [v * w if not isinstance(v, float) else 0.0 for v in vel], stamp())
+                leaf = Unit((0, 0), list(leaf_pos), {"e": charge}, list(vel), stamp())
+                branch = Node(root, weight=1)
+                branch.add_child(Node(leaf, weight=w))
+                level_unit = leaf if cell_level == 2 else root
+            expected_active_cell = cells.position_to_cell(list(level_unit.position))
+            n0 = len(rnd.draws)
+            t_event, (target_cell,) = h.send_event_time([branch])
+            draws = rnd.draws[n0:]
+            expo = [d for d in draws if d[0] == "expovariate"][0][3].t
+            # which offset was sampled: identify the walker and the row/coin of the sample
+            positive = ex.decide(charge.t > 0)
+            walker = (h._upper_bound_walker if positive else h._lower_bound_walker)[direction]
+            choice = [d for d in draws if d[0] == "choice"][0][3]
+            coin = [d for d in draws if d[0] == "uniform"][0][3].t
+            row = walker._table[ex.decide_value(choice.t)]
+            first = ex.decide(coin <= lift(row[0].rate)) or len(row) == 1
+            offset = row[0].item if first else row[1].item
+            bound = h._derivative_bounds[offset][direction][0 if positive else 1]
+            cf = charge.t if positive else -charge.t
+            ex.oblige("target-cell-is-the-sampled-offset-from-the-cell-of-the-unit-on-the-cell-level",
+                      z3.BoolVal(target_cell is cells.translate(expected_active_cell, offset)),
+                      got=str(target_cell.identifier), active=str(expected_active_cell.identifier),
+                      offset=str(offset.identifier))
+            ex.oblige("confirmation-bound-is-the-stored-bound-of-that-offset-direction-and-sign",
+                      lift(h._bounding_event_rate) == symx.realval(bound) * cf)
+            total = symx.realval(walker.total_rate)
+            ex.oblige("proposal-rate-is-total-rate-times-charge-factor-times-speed",
+                      (jf.time_value(t_event) - stamp_val) * (total * cf * speed.t) == expo)
+            ex.oblige("target-cell-not-nearby", z3.BoolVal(target_cell not in cells.nearby_cells(expected_active_cell)))
+            return None
+        finally:
+            for u_ in undos:
+                u_()
+            jf.reset_settings()
+    return run
+
+
+def explore_handler(task):
+    queries, npaths = [], 0
+    tag = "handler/level%d/per_root%d" % task
+    info = {"task": list(task), "replay": "handler"}
+    ex = symx.Explorer(max_paths=10 ** 5)
+    for path in ex.paths(make_handler_run(task)):
+        npaths += 1
+        if path.exception is not None:
+            if isinstance(path.exception, AssertionError) and KNOWN_ASSERT[0]:
+                continue
+            queries.append(solve.Query("%s/p%d/no-exception(%s: %s)" % (tag, npaths, type(path.exception).__name__,
+                                                                        str(path.exception)[:60]),
+                                       solve.to_smt2(path.hyp()), expect="unsat",
+                                       info=dict(info, exception=repr(path.exception), choices=list(path.choices)),
+                                       group="handler/no-exception"))
+            continue
+        queries += harness.path_queries(path, prefix="%s/p%d/" % (tag, npaths), group_prefix="handler/",
+                                        extra_info=info, twin=False)
+    return {"paths": npaths, "queries": queries, "part": "handler"}
+
+
+KNOWN_ASSERT = [False]
+
+
+def replay_handler(model, q):
+    run = make_handler_run(tuple(q.info["task"]))
+    return harness.concrete_replay_result(run, model, q, "LeafUnitCellVetoEventHandler.send_event_time (cell level %d, "
+                                                       "%d leaves per root)" % tuple(q.info["task"]))
+
+
 # ------------------------------------------------------------------------------------------------ native side
 def native_sample(rates, row_index, u):
     rnd = stubs.ReplayRandom([row_index, u])
@@ -309,6 +449,17 @@ def main():
     chk.explore_parallel(sub, explore_table)
     if known_zero:
         chk.explore_parallel([3], explore_known)
+    # handler part: target cell, bound and proposal rate of the real cell-veto handler
+    import jellyfysh.event_handler.abstracts.cell_veto_event_handler as cv_mod
+    chk.encoded(cv_mod.CellVetoEventHandler.initialize, cv_mod.CellVetoEventHandler.send_event_time)
+    chk.bound(handler="LeafUnitCellVetoEventHandler on a 4x4 grid: atoms (cell level 1), composite objects tracked as a "
+                      "whole (level 1) and by their leaf units (level 2); symbolic positions, speed, charge (both "
+                      "signs), every direction, every sampled row and coin")
+    chk.register_replay("handler", replay_handler)
+    # the recorded finding makes the handler's own assertion fail on the zero-rate sample: those paths are skipped
+    # only while the finding is listed
+    KNOWN_ASSERT[0] = known_zero
+    chk.explore_parallel([(1, 1), (1, 2), (2, 2)], explore_handler)
     # the known-finding witness is a sat query whose model is replayed natively
     chk.finish_hook = None
     finish(chk, known_zero)
